@@ -1,5 +1,6 @@
 import GambitV.Model.Jaccard
 import Driver.Proto
+import Driver.PyGenCmp
 import Std.Data.HashSet
 namespace Driver.C02
 open GambitV Driver
@@ -34,7 +35,8 @@ def handle : List String → Option String
     let idx := F32.sub F32.oneBits spec
     let r := expect s!"{spec.toNat}:{idx.toNat}" s!"{dbits}:{ibits}"
     if r != "ok" then pure r else
-    pure (if model == spec then "ok" else s!"FAIL model/spec disagree model={model.toNat} spec={spec.toNat}")
+    if model != spec then pure s!"FAIL model/spec disagree model={model.toNat} spec={spec.toNat}" else
+    pure ((PyGen.distIdx a b s!"{dbits}:{ibits}").getD "ok")
   -- arrays given by sizes only (harness builds [0,N) and [N-I, N-I+M)); spec from counts
   | ["c02.sizes", n, m, i, dbits] => do
     let n ← n.toNat?
@@ -60,7 +62,10 @@ def handle : List String → Option String
   | ["c02.cast", kind, size, native, real] => do
     let size ← size.toNat?
     let k ← kind.toList.head?
-    pure (expect (optNatOf (castDtype k size (← parseBool native))) real)
+    let native ← parseBool native
+    let r := expect (optNatOf (castDtype k size native)) real
+    if r != "ok" then pure r else
+    pure ((PyGen.castArr k size native real).getD "ok")
   -- metric laws on real bit patterns of a triple (a,b,c): dab dba dbc dac daa
   | ["c15.triple", a, b, c, dab, dba, dbc, dac, daa] => do
     let a ← parseNats a
